@@ -99,6 +99,11 @@ def run_(ctx, model):
                             ctx.fail(f'read {op} under a different completion order of its parallel range reads returned a '
                                      f'different result', {'file': desc, 'op': op, 'blob': True})
                     positions = list(range(nreads))
+                    if not ctx.quick and nreads > 64:
+                        # (a call with hundreds of range reads: the first, the last, the batch boundaries and a sample)
+                        positions = sorted(set([0, 1, 2, 19, 20, 21, nreads // 2, nreads - 21, nreads - 20, nreads - 2, nreads - 1]
+                                               + [p_ for p_ in (1023, 1024, 1025) if p_ < nreads]
+                                               + rng.integers(0, nreads, size=24).tolist()))
                     if ctx.quick and nreads > 6:
                         positions = sorted(set([0, 1, nreads - 1, nreads // 2] + rng.integers(0, nreads, size=2).tolist()))
                     plans = [{k: kind} for k in positions for kind in ('exc', 'short', 'empty')]
